@@ -143,6 +143,45 @@ func TestVerifC13(t *testing.T) {
 			return
 		}
 		defer func() {
+			// another generation on the same plugin with the very same addresses in
+			// the very same order, only their flags have changed (duplicate address
+			// detection completed; or an address became tentative again): the
+			// expansion follows the flags, not a memory of the address list
+			flipped := append([]model.SysIP(nil), list...)
+			changed := false
+			for i := range flipped {
+				if flipped[i].Tentative || flipped[i].Temporary {
+					flipped[i].Tentative, flipped[i].Temporary = false, false
+					changed = true
+				}
+			}
+			if !changed && len(flipped) > 0 {
+				flipped[0].Tentative = true
+				changed = true
+			}
+			if !changed {
+				return
+			}
+			cur = flipped
+			ra3 := &ndp.RouterAdvertisement{}
+			if err := p.Apply(ra3); err != nil {
+				r.Violation(id, "unexpected-error", "expansion after the flags changed failed: "+err.Error(), map[string]any{"addrs": flipped})
+				return
+			}
+			want3 := model.WildPrefixes(flipped)
+			ok := len(ra3.Options) == len(want3)
+			for i, o := range ra3.Options {
+				pi, isPI := o.(*ndp.PrefixInformation)
+				if !ok || !isPI || netip.PrefixFrom(pi.Prefix, int(pi.PrefixLength)) != want3[i] {
+					ok = false
+				}
+			}
+			r.Count("flag_change_generations_compared", 1)
+			if !ok {
+				r.Violation(id, "wrong-prefix-set", fmt.Sprintf("after only the flags of the listed addresses changed the wildcard expanded to %v, want %v", model.FromNDP(ra3).Options, want3), map[string]any{"first_addrs": list, "addrs": flipped})
+			}
+		}()
+		defer func() {
 			// second generation on the same plugin after the kernel-deprecated
 			// addresses have disappeared
 			var rest []model.SysIP
@@ -292,7 +331,26 @@ func TestVerifC14(t *testing.T) {
 		cfgServers := make([]netip.Addr, len(statics[si]), len(statics[si])+len(id)%4)
 		copy(cfgServers, statics[si])
 		p := &RDNSS{Auto: true, Lifetime: 30 * time.Minute, Servers: cfgServers}
-		p.Addrs = func() ([]system.IP, error) { return vIPs(list), nil }
+		// An earlier generation on the same plugin saw the same addresses in the
+		// same order with other flags (the address that will be picked was still
+		// deprecated; or nothing was eligible and one address has since completed
+		// duplicate address detection): the pick follows the flags as they are now.
+		warm := append([]model.SysIP(nil), list...)
+		if b, ok := model.WildRDNSS(list); ok {
+			for i := range warm {
+				if warm[i].Addr.Addr() == b {
+					warm[i].Deprecated = true
+				}
+			}
+		} else {
+			for i := range warm {
+				warm[i].Deprecated, warm[i].Temporary, warm[i].Tentative = false, false, false
+			}
+		}
+		cur := warm
+		p.Addrs = func() ([]system.IP, error) { return vIPs(cur), nil }
+		_ = p.Apply(&ndp.RouterAdvertisement{})
+		cur = list
 		ra := &ndp.RouterAdvertisement{}
 		var err error
 		if !r.Guard(id, "panic", func() {
